@@ -800,6 +800,7 @@ func run(c *lib.Ctx) {
 	c.Par(len(svs), func(i int) {
 		checkSingle(c, svs[i].name, svs[i].m, svs[i].v, svs[i].p)
 		c.Eval(4)
+		c.Nontrivial(1) // one (value, representation) round trip
 	})
 
 	// canonical: group by abstract value
@@ -961,7 +962,7 @@ func main() {
 		Rule: "every representation of every scalar of the boundary alphabet and of every integer in [-70000,70000]: Pack/Unpack round trip, PackSize, canonical bytes; " +
 			"ALL ordered pairs of the abstract boundary scalars (booleans, numbers, non-empty strings, dates, timestamps): byte order vs reference order; " +
 			"every adjacent pair of the dense integer range; objects/records nested to depth 2: round trip. " +
-			"evaluations = assertions judged; non-trivial = ordered pairs of distinct abstract values + distinct objects (distinct by construction)",
+			"evaluations = assertions judged; non-trivial = (value, representation) round trips of the boundary alphabet + ordered pairs of distinct abstract values + adjacent integer pairs + distinct objects (distinct by construction)",
 		Assumptions: []string{
 			"math/big and the by-construction model are the trusted oracle; values are read back through public accessors only",
 			"the value order between classes is boolean < number < string < date (suneidoc / Ord in core/value.go)",
